@@ -22,6 +22,7 @@ package rfc8628
 
 //@ interface DeviceAuthStorage.GetDeviceCodeSession
 //@   modifies faults
+//@   ensures request != nil && stored[request] ==> shared[request] && shared[request.GetSession()]
 //@   ensures err == nil ==> dev_live[signature] && request != nil && request == dev_req[signature] && request.GetID() == dev_rid[signature] && request.GetClient() != nil && request.GetClient().GetID() == dev_client[signature] && (stored[request] || fresh(request)) && faults == old(faults)
 //@   ensures err != nil && eis(err, fosite.ErrInvalidatedDeviceCode) ==> dev_used[signature] && !dev_live[signature] && request == dev_req[signature] && (request != nil ==> request.GetID() == dev_rid[signature] && (stored[request] || fresh(request))) && faults == old(faults)
 //@   ensures err != nil && !eis(err, fosite.ErrInvalidatedDeviceCode) && eis(err, fosite.ErrNotFound) ==> !dev_live[signature] && !dev_used[signature] && faults == old(faults)
@@ -102,16 +103,17 @@ package rfc8628
 
 //@ func (*DeviceCodeTokenEndpointHandler).HandleTokenEndpointRequest
 //@   modifies anyheap
+//@   protects [C19.no-write-to-store-owned-session] shared
 //@   let code = formget(old(requester.GetRequestForm()), "device_code")
 //@   let sig = devsig(c.DeviceCodeStrategy, code)
-//@   requires c != nil && requester != nil && !stored[requester] && requester.GetClient() != nil
+//@   requires c != nil && requester != nil && !stored[requester] && requester.GetClient() != nil && !shared[requester] && !shared[requester.GetSession()]
 //@   modifies acc_exists, ref_active, faults, validated_n, rl_blocked, tx_escaped
 //@   ensures [C16.handle-issues-nothing] (forall s string :: acc_exists[s] ==> old(acc_exists[s])) && (forall s string :: ref_active[s] ==> old(ref_active[s])) && dev_live == old(dev_live) && dev_used == old(dev_used)
 //@   ensures [C16.fault-refuses] faults != old(faults) ==> err != nil
 //@   ensures [C06.lookup-then-validate] err == nil ==> validated_n[code] > old(validated_n[code])
 //@   ensures [C16.tokens-only-if-accepted] err == nil ==> dev_live[sig] && dev_req[sig] != nil && dev_req[sig].GetUserCodeState() != fosite.UserCodeUnused && dev_req[sig].GetUserCodeState() != fosite.UserCodeRejected
 //@   ensures [C16.client-bound] err == nil ==> dev_client[sig] == requester.GetClient().GetID()
-//@   ensures [C16.grant-copied] err == nil ==> requester.GetID() == dev_rid[sig] && requester.GetSession() == dev_req[sig].GetSession() && sameset(requester.GetRequestedScopes(), dev_req[sig].GetRequestedScopes()) && sameset(requester.GetRequestedAudience(), dev_req[sig].GetRequestedAudience())
+//@   ensures [C16.grant-copied] err == nil ==> requester.GetID() == dev_rid[sig] && requester.GetSession() != nil && requester.GetSession().GetSubject() == dev_req[sig].GetSession().GetSubject() && requester.GetSession().GetUsername() == dev_req[sig].GetSession().GetUsername() && sameset(requester.GetRequestedScopes(), dev_req[sig].GetRequestedScopes()) && sameset(requester.GetRequestedAudience(), dev_req[sig].GetRequestedAudience())
 //@   let polled = c.CanHandleTokenEndpointRequest(ctx, requester) && old(requester.GetClient().GetGrantTypes()).Has("urn:ietf:params:oauth:grant-type:device_code") && c.DeviceCodeStrategy != nil && faults == old(faults) && !rl_blocked
 //@   ensures [C16.pending] dev_live[sig] && dev_req[sig].GetUserCodeState() == fosite.UserCodeUnused ==> err != nil
 //@   ensures [C16.pending] polled && dev_live[sig] && dev_req[sig].GetUserCodeState() == fosite.UserCodeUnused ==> ekind(err) == "authorization_pending" || ekind(err) == "server_error"
